@@ -276,7 +276,33 @@ def threshold_variants(spec, t, cfg):
     return out
 
 
+FORM_U = [[0.1, 0.5, 0.9, 0.3, 0.7], [0.2, 0.4, 0.6, 0.8, 0.1], [0.3, 0.3, 0.5, 0.7, 0.9], [0.9, 0.5, 0.2, 0.6, 0.4]]
+
+
+def judge_forms(f, method):
+    """input forms for the diffuse estimator: (trigger values, cosines, exit probabilities, decay lengths) as narrower arrays"""
+    from .. import forms
+
+    gc = geom_cfg(525.0, 0.2, 0.3, 7.0, 3.0, 360.0)
+
+    def mc(trig, cosv, pex, ld):
+        g = make_geom(gc)
+        g.throw(np.array(FORM_U))
+        n = int(np.sum(g.event_mask))
+        return tuple(np.asarray(x, dtype=float) for x in g.mcintegral(trig[:n], cosv[:n], pex[:n], 10.0, 1.0, 1.0, lenDec=ld[:n], method=method))
+
+    cols = [np.array([100.0, 5.0, 10.0, 20.0, 0.0]), np.array([1.0, 0.5, 1.0, 0.0, 1.0]), np.array([1.0, 0.5, 1.0, 0.25, 1.0]), np.array([0.0, 1.0, 2.0, 4.0, 8.0])]
+    return forms.judge(mc, cols, tuple(f), what=f"RegionGeom.mcintegral({method})")
+
+
 def run(ctx):
+    from .. import forms as _forms
+
+    for method in ("Optical", "Radio"):
+        for f in _forms.product(4, per_array=("f4", "i8")):
+            ctx.tick(5, ("forms", method, f))
+            for c, e, o in judge_forms(f, method):
+                ctx.violation(c, {"kind": "forms", "forms": list(f), "method": method}, e, o)
     tier = ctx.tier
     kmax = 3 if tier == "quick" else 4
     # ---- part 1a: diffuse
@@ -456,6 +482,8 @@ def run(ctx):
 
 def replay(case):
     k = case["kind"]
+    if k == "forms":
+        return judge_forms(case["forms"], case["method"])
     if k == "diffuse":
         return judge_diffuse(case["gc"], np.array(case["U"], dtype=float), case["trig"], case["cos"], case["pexit"], case["thr"], case["sn"], case["sw"])
     if k == "diffuse_perm":
